@@ -306,7 +306,7 @@ def dstep (s : DState) (toks : List String) : DState × List String :=
           (if d.caps.cursorPos then { d with caps := { d.caps with cursorWasMoved := false } } else d)
         else if d.phase != .closed ∧ d.caps.cursorPos then { d with caps := { d.caps with cursorWasMoved := true } }
         else d
-      ({ scr := sc, conns := conns }, [])
+      ({ s with scr := sc, conns := conns }, [])
   | [op, id, n] =>
     if op = "setscale" ∨ op = "palmscale" then
       withNormal s id fun c =>
@@ -321,8 +321,8 @@ def dstep (s : DState) (toks : List String) : DState × List String :=
   | ["xvpc", id, _, _] => withNormal s id fun c => { c with usedXvp := true }
   -- ---------------------------------------------------------------- application actions
   | ["cursor", w, h, xh, yh, _, _] =>
-    ({ scr := { s.scr with curW := natD w, curH := natD h, curXhot := natD xh, curYhot := natD yh },
-       conns := s.conns.map fun c => { c with caps := { c.caps with cursorWasChanged := true } } }, [])
+    ({ s with scr := { s.scr with curW := natD w, curH := natD h, curXhot := natD xh, curYhot := natD yh },
+              conns := s.conns.map fun c => { c with caps := { c.caps with cursorWasChanged := true } } }, [])
   | ["led", v] => ({ s with scr := { s.scr with led := intD v } }, [])
   | ["close", id] => withConn s id fun c => ({ c with phase := .closed, preds := [], expectHs := [], buf := [] }, [])
   | _ => (s, [])
